@@ -22,6 +22,7 @@ GROUPS = {
     'starfinders': ['DAOStarFinder', 'IRAFStarFinder', 'StarFinder'],
     'segm': ['detect_sources', 'deblend_sources'],
     'catalog': ['SourceCatalog'],
+    'catalog_hostile': ['SourceCatalog'],      # scenes with tiny / corner-peaked / ragged / peak-masked / fully masked segments
     'profiles': ['profiles'],
     'model': ['make_model_image'],
     'psf': ['PSFPhotometry'],
@@ -30,7 +31,7 @@ GROUPS = {
 CLASSES = ['translate:aperture', 'translate:catalog', 'transpose:catalog', 'translate:peaks',
            'translate:starfinders', 'transpose:aperture', 'translate:segm', 'translate:profiles',
            'transpose:centroids', 'translate:model', 'transpose:profiles', 'translate:psf',
-           'translate:catalog', 'transpose:catalog']
+           'translate:catalog_hostile', 'transpose:catalog_hostile']
 CLASSES = list(dict.fromkeys(CLASSES))     # unique, order kept
 
 RULE = ('one case = one random scene (3-8 elliptical Gaussians with random orientation and unequal fluxes + '
@@ -41,7 +42,10 @@ RULE = ('one case = one random scene (3-8 elliptical Gaussians with random orien
         'positions swapped, aperture/kernel angles -> 90deg - theta, (ny, nx) pairs swapped. Rows whose footprint '
         'leaves the original frame are excluded and counted. non-trivial = at least one position-like output '
         '(coordinate, index, box, orientation, frame array) was compared on at least one kept row; distinct by '
-        'digest of (data, mask, segm, relation, pads, group)')
+        'digest of (data, mask, segm, relation, pads, group). The catalog_hostile classes (and 30 % of the catalog / aperture '
+        'scenes) add 1-5 pixel segments, blocks whose maximum sits at the segment corner, ragged sparse segments, masks '
+        'right next to a peak and fully masked segments; evidence notes `fallback:*` count the rows that took each '
+        'documented fallback branch')
 MUST_REACH = sorted({m for e in epm.TABLE if e.relations & {'translate', 'transpose'} for m in e.must_reach}
                     | {'photutils.utils._moments:_moments_central',
                        'photutils.aperture.bounding_box:BoundingBox.get_overlap_slices',
@@ -191,6 +195,10 @@ def compare_ep(case, ep, rel, res1, res2, box1, box2, pads, atol_free, amp=1.0, 
             case.note(f'rows_ill_conditioned:{ep.name}', int((keep & ~keep_md).sum()))
     for name in sorted(out1):
         k = ep.spec[name]
+        if name == '_notes':
+            for nk, nv in out1[name].items():
+                case.note(f'fallback:{ep.name}:{nk}', nv)
+            continue
         if k.kind == 'skip':
             continue
         src = name
@@ -276,7 +284,10 @@ def build_case(case):
     flav = eps[0].flavour
     nonfinite = group in ('aperture', 'catalog', 'profiles', 'peaks') and rng.random() < 0.2
     nsrc = 1 if (group == 'catalog' and rng.random() < 0.12) else None
-    scene = gen.make_scene(rng, flavour=flav, nonfinite=nonfinite, nsrc=nsrc)
+    # segments / masks that force the documented fallback branches (failed quadratic fit -> barycentre, Kron radius
+    # below the minimum, fully masked or single-pixel source): always in the *_hostile classes, 30 % elsewhere
+    hostile = group == 'catalog_hostile' or (group in ('catalog', 'aperture') and rng.random() < 0.3)
+    scene = gen.make_scene(rng, flavour=flav, nonfinite=nonfinite, nsrc=nsrc, hostile=hostile)
     for ep in eps:
         scene['opts'][ep.name] = ep.prepare(rng, scene)
     if rel == 'translate':
@@ -293,7 +304,7 @@ def run_case(case):
     d = scene['data'].v
     case.params = dict(relation=rel, group=group, shape=list(d.shape), nsrc=len(scene['src'].v),
                        nlabels=scene['nlabels'], pads=list(pads), dx=pads[0], dy=pads[2],
-                       nonfinite=scene['nonfinite'])
+                       nonfinite=scene['nonfinite'], hostile=scene['hostile'])
     case.digest = core.digest([core.arr_digest(*gen.scene_digest_arrays(scene), np.array(pads)), case.cls])
     atol_free = 1e-10 * max(1.0, scene['amp'])
     npos = 0
